@@ -128,6 +128,19 @@ E('getitem[2,3][1,::-1]', lambda x: x[1, ::-1], lambda x: x[1, ::-1], [u((2, 3),
 E('fft[2,3]', algopy.fft.fft, np.fft.fft, [u((2, 3), 'any')], tags=('shape', 'fft'))
 E('fft[2,3] axis=0', lambda x: algopy.fft.fft(x, axis=0), lambda x: np.fft.fft(x, axis=0), [u((2, 3), 'any')], tags=('shape', 'fft'))
 E('ifft[2,3]', algopy.fft.ifft, np.fft.ifft, [u((2, 3), 'any')], tags=('shape', 'fft'))
+for _ax in (-1, -2, 1):
+    for _n in (None, 2, 4):
+        E('fft[2,3] axis=%d n=%s' % (_ax, _n), (lambda x, a=_ax, n=_n: algopy.fft.fft(x, n=n, axis=a)), (lambda x, a=_ax, n=_n: np.fft.fft(x, n=n, axis=a)), [u((2, 3), 'any')], tags=('shape', 'fft'))
+        E('ifft[2,3] axis=%d n=%s' % (_ax, _n), (lambda x, a=_ax, n=_n: algopy.fft.ifft(x, n=n, axis=a)), (lambda x, a=_ax, n=_n: np.fft.ifft(x, n=n, axis=a)), [u((2, 3), 'any')], tags=('shape', 'fft'), atol=4)
+for _ax in (-1, -2, -3, 0, 1):
+    E('fft[2,3,2] axis=%d' % _ax, (lambda x, a=_ax: algopy.fft.fft(x, axis=a)), (lambda x, a=_ax: np.fft.fft(x, axis=a)), [u((2, 3, 2), 'any')], tags=('shape', 'fft'))
+    E('ifft[2,3,2] axis=%d' % _ax, (lambda x, a=_ax: algopy.fft.ifft(x, axis=a)), (lambda x, a=_ax: np.fft.ifft(x, axis=a)), [u((2, 3, 2), 'any')], tags=('shape', 'fft'), atol=4)
+# index kinds beyond basic slices: lists, integer arrays, boolean masks (NumPy's advanced indexing; result is a copy)
+for _nm, _sh, _ix in [('[[0,2]]', (4, 5), [0, 2]), ('[[2,0]]', (3, 4, 2), [2, 0]), ('[[1]]', (3,), [1]), ('[arr[0,2]]', (4, 5), np.array([0, 2])),
+                      ('[[True,False,True]]', (3, 2), [True, False, True]), ('[mask]', (3, 2), np.array([False, True, True])),
+                      ('[[0,2],1]', (4, 5), ([0, 2], 1)), ('[1,[0,2]]', (4, 5), (1, [0, 2])), ('[:, [0,2]]', (4, 5), (slice(None), [0, 2])),
+                      ('[[0,1],[1,0]]', (3, 2), ([0, 1], [1, 0]))]:
+    E('getitem%s%s' % (list(_sh), _nm), (lambda x, ix=_ix: x[ix]), (lambda x, ix=_ix: x[ix]), [u(_sh, 'any')], tags=('shape', 'advanced-index'))
 
 # ------------------------------------------------------------------ linear algebra
 for sa, sb in [((3,), (3,)), ((2, 3), (3,)), ((3,), (3, 2)), ((2, 3), (3, 2)), ((2, 2, 3), (3,)), ((2, 3), (2, 3, 2)), ((2, 2, 3), (3, 2)), ((3, 2, 3), (3, 2)), ((3, 1, 3), (3,))]:
